@@ -13,6 +13,7 @@ fn spawn(mode: &str, i: bool, o: bool, e: bool) -> Popen {
     Popen::create(&[selfreport_path(), mode.to_string()], PopenConfig { stdin: r(i), stdout: r(o), stderr: r(e), ..Default::default() }).unwrap()
 }
 
+#[allow(unreachable_code)]
 pub fn run(_a: &HashMap<String, String>) -> (usize, usize) {
     let mut cases = 0;
     let mut viols = 0;
@@ -72,6 +73,94 @@ pub fn run(_a: &HashMap<String, String>) -> (usize, usize) {
         let _ = p.wait();
         report("flood limit300ms", v);
     }
+    // 2b. scenarios that must terminate: run under an in-process watchdog
+    {
+        use std::sync::mpsc;
+        let scen: Vec<(&str, Box<dyn FnOnce() -> Vec<String> + Send>)> = vec![
+            ("empty input", Box::new(|| {
+                let mut p = spawn("cat", true, true, false);
+                let r = p.communicate_bytes(Some(b""));
+                let mut v = vec![];
+                match r {
+                    Ok((Some(o), None)) if o.is_empty() => (),
+                    other => v.push(format!("C02/absent-iff-not-piped: empty input through cat gave {:?}", other.map(|(a, b)| (a.map(|x| x.len()), b.map(|x| x.len()))))),
+                }
+                let _ = p.wait();
+                v
+            })),
+            ("child reads 512-byte blocks and writes twice as much", Box::new(|| {
+                let mut p = spawn("dup512", true, true, false);
+                let input = vec![b'q'; 1 << 20];
+                let r = p.communicate_bytes(Some(&input));
+                let mut v = vec![];
+                match r {
+                    Ok((Some(o), None)) if o.len() == 2 << 20 => (),
+                    other => v.push(format!("C02/nothing-lost-or-added: expected 2 MiB back, got {:?}", other.map(|(a, _)| a.map(|x| x.len())))),
+                }
+                let _ = p.wait();
+                v
+            })),
+            ("child closes its outputs, then consumes 1 MB of input", Box::new(|| {
+                let path = format!("{}/count.{}", RT, std::process::id());
+                let _ = std::fs::remove_file(&path);
+                let mut p = spawn(&format!("closeout_count:{}", path), true, true, true);
+                let input = vec![b'z'; 1_000_000];
+                let r = p.communicate_bytes(Some(&input));
+                let _ = p.wait();
+                let mut v = vec![];
+                let got: usize = std::fs::read_to_string(&path).ok().and_then(|s| s.trim().parse().ok()).unwrap_or(0);
+                if r.is_ok() && got != 1_000_000 {
+                    v.push(format!("C02/input-complete: the child received {} of 1000000 input bytes although communicate returned success", got));
+                }
+                let _ = std::fs::remove_file(&path);
+                v
+            })),
+        ];
+        for (name, f) in scen {
+            let (tx, rx) = mpsc::channel();
+            std::thread::spawn(move || {
+                let _ = tx.send(f());
+            });
+            let v = match rx.recv_timeout(Duration::from_secs(20)) {
+                Ok(v) => v,
+                Err(_) => vec![format!("C01/terminates: the exchange did not finish within 20 s ({}): parent and child are deadlocked or the parent spins", name)],
+            };
+            report(name, v);
+        }
+    }
+    // 2c. a timed-out read, then resumption: the undelivered rest of the input exactly once
+    {
+        let mut p = spawn("slowcat:400", true, true, false);
+        let input: Vec<u8> = (0..300000usize).map(|i| g(3, i)).collect();
+        let mut c = p.communicate_start(Some(input.clone())).limit_time(Duration::from_millis(100));
+        let mut out = vec![];
+        let mut v = vec![];
+        let mut timed_out = 0;
+        for _ in 0..200 {
+            match c.read() {
+                Ok((o, _)) => {
+                    out.extend(o.unwrap_or_default());
+                    break;
+                }
+                Err(e) => {
+                    if e.kind() != std::io::ErrorKind::TimedOut {
+                        v.push(format!("ENV/read-error {:?}", e.error));
+                        break;
+                    }
+                    timed_out += 1;
+                    out.extend(e.capture.0.clone().unwrap_or_default());
+                }
+            }
+        }
+        if timed_out == 0 {
+            v.push("ENV/no-timeout-happened".to_string());
+        }
+        if out != input {
+            v.push(format!("C04/resumes-exactly: after {} timed-out reads the child echoed {} bytes for {} supplied (first difference at {:?})", timed_out, out.len(), input.len(), out.iter().zip(input.iter()).position(|(a, b)| a != b)));
+        }
+        let _ = p.wait();
+        report("timeout then resume", v);
+    }
     // 3. echo: 1 MB through cat, byte exact
     {
         let mut p = spawn("cat", true, true, false);
@@ -129,5 +218,8 @@ pub fn run(_a: &HashMap<String, String>) -> (usize, usize) {
         let _ = p.wait();
         report(&format!("pattern out={} err={} limit={}", nout, nerr, lim), v);
     }
-    (cases, viols)
+    // a hung scenario leaves a stuck thread and child behind: leave the process the hard way
+    println!("SUMMARY family=comm cases={} violations={}", cases, viols);
+    unsafe { libc::kill(0, 0) };
+    std::process::exit(0);
 }
